@@ -17,7 +17,7 @@ MUTATORS = {"append", "insert", "pop", "sort", "reverse", "extend", "remove", "c
 
 
 def g1(prog, ctx):
-    f = prog.func(TP, "GFFPrinter.dump")
+    f = prog.func_inlined(TP, "GFFPrinter.dump")      # blocks extracted into helpers of the class are analysed in place
     # the validating loop: `for i, model in enumerate(storage): if not validate_exons(model.exon_blocks): ...; continue`
     storage = f.args.args[2].arg
     loops = [l for l in walk_no_nested(f) if isinstance(l, ast.For) and storage in src(l.iter)]
@@ -109,8 +109,28 @@ def g1(prog, ctx):
         ctx.fail("G1", v, "validate_exons", vt[-90:], "validate_exons no longer checks sortedness and 0 < start <= end of every exon")
     else:
         ctx.ok("G1", "%s:%d" % (TP, v.lineno), "validate_exons: sorted and 0 < start <= end for all exons")
-    # no other function writes to out_gff except merge (which copies files)
+    # no other function writes to out_gff except merge (which copies files); helpers called only from dump were inlined above
+    gp = prog.cls(TP, "GFFPrinter")
+    gmeths = prog.methods_of(gp, inherited=False)
+    callers = {}
+    for name_, fm in gmeths.items():
+        for c in walk_no_nested(fm):
+            if isinstance(c, ast.Call) and isinstance(c.func, ast.Attribute) and dotted(c.func.value) in ("self", "GFFPrinter") and c.func.attr in gmeths:
+                callers.setdefault(c.func.attr, set()).add(name_)
+    only_from_dump = set()
+    changed = True
+    while changed:
+        changed = False
+        for name_, cs in callers.items():
+            if name_ not in only_from_dump and cs and all(x == "dump" or x in only_from_dump for x in cs):
+                ext = [1 for _m, q2, f2 in prog.all_functions() if not q2.startswith("GFFPrinter.") for c in walk_no_nested(f2)
+                       if isinstance(c, ast.Call) and isinstance(c.func, ast.Attribute) and c.func.attr == name_]
+                if not ext:
+                    only_from_dump.add(name_)
+                    changed = True
     for m, q, fn in prog.all_functions():
+        if m.rel == TP and q.startswith("GFFPrinter.") and q.split(".")[-1] in only_from_dump:
+            continue
         for c in walk_no_nested(fn):
             if isinstance(c, ast.Call) and isinstance(c.func, ast.Attribute) and c.func.attr == "write" \
                     and "out_gff" in src(c.func.value) and not (m.rel == TP and q in ("GFFPrinter.dump", "GFFPrinter.__init__")):
